@@ -1,5 +1,5 @@
 From Coq Require Import List NArith Bool.
-From LTV.C17 Require Import Model Proofs ProofsA ProofsB ProofsC ProofsD ProofsE.
+From LTV.C17 Require Import Model Proofs ProofsA ProofsB ProofsC ProofsD ProofsE ProofsF ProofsG ProofsH ProofsI.
 Import ListNotations.
 
 (* Conventions: all theorems quantify over ALL client programs [progs], callback bodies [bds], id counts and
@@ -75,19 +75,23 @@ Theorem not_holding_means : forall i th2, wf_thread th2 -> hl i (todo th2) = 0 -
 Proof. exact ProofsC.not_holding_means. Qed.
 Print Assumptions not_holding_means.
 
-(* CANCEL_FINAL, single-argument form - PARTIAL. Proved (for all programs and schedules):
-   (1) when the call returns (CAS success) no other thread is running, or has decided to run, or is
-       posting a callback of the id [cas_success_quiescent];
-   (2) every callback of the id that is queued or batched at that moment has expected generation
-       <= old generation < the generation written by the CAS [expected_le_generation + bump];
-   (3) generations never decrease [generation_monotone], and the dispatch check skips every entry
-       whose expected generation is below the current one while the 28-bit counter has not wrapped
-       (explicit assumption gen < 2^28 = gmod) [stale_entry_skipped].
-   MISSING for the trace-level statement "EvRun u is never logged after EvCwRet": the bookkeeping
-   invariant that ties the uid in the log to the unique entry carrying it (uids in queues/batches/IRun
-   are pairwise distinct and fresh w.r.t. nposted; fin1 <= posted; no post of a returned uid is in
-   flight). It is exercised by the correspondence run + oracle class "cancel-final" only. *)
-Theorem cancel_final_single_partial : forall progs nids bds c t th i old rest w,
+(* CANCEL_FINAL for the counter-draining cancel-and-wait (single-argument form; by
+   cancel_two_arg_outside_is_single also the two-argument form called from outside a callback of the id).
+   [fin1 c] is the ghost list of pairs (u, i) such that a cancel_callback_and_wait(i) has RETURNED whose call
+   began after the post of callback instance u under id i had returned, u not being the callback the canceller
+   itself runs in (Model.begin_cw / Model.cw_ret). For every such pair, in every reachable state:
+   (1) no thread is inside that callback; (2) it is never run afterwards under ANY further schedule.
+   Explicit assumptions: at most 3 threads (count field), and [nowrap]: the 28-bit generation of no id has
+   wrapped, i.e. fewer than 2^28 = gmod cancellations per id. *)
+Theorem cancel_final_single : forall progs nids bds c u i,
+  length progs <= 3 -> reachable (init progs nids bds) c -> In (u, i) (fin1 c) -> nowrap c ->
+  (forall th, In th (threads c) -> ~ (cur th = Some u /\ proc th = Some i)) /\
+  (forall sched, nowrap (run c sched) -> runs_ui u i (log (run c sched)) = runs_ui u i (log c)).
+Proof. exact ProofsH.cancel_final_single. Qed.
+Print Assumptions cancel_final_single.
+
+(* the mechanism-level facts behind it (kept: they do not need the no-wrap assumption) *)
+Theorem cancel_final_mechanism : forall progs nids bds c t th i old rest w,
   length progs <= 3 -> reachable (init progs nids bds) c ->
   nth_error (threads c) t = Some th -> todo th = ICwCas i old :: rest ->
   nth_error (ids c) i = Some w -> word_eqb w old = true ->
@@ -95,7 +99,7 @@ Theorem cancel_final_single_partial : forall progs nids bds c t th i old rest w,
   (forall e, entry_of c e -> e_id e = Some i -> (fst (e_exp e) < gen (bump w))%N) /\
   (forall e w', (fst (e_exp e) < gen w')%N -> (gen w' < gmod)%N -> upper_eqb (upper w') (e_exp e) = false).
 Proof. exact ProofsE.cancel_final_single_partial. Qed.
-Print Assumptions cancel_final_single_partial.
+Print Assumptions cancel_final_mechanism.
 
 (* two-argument form called from OUTSIDE a callback of the id behaves exactly as the single-argument
    form (so everything above applies to it) *)
@@ -125,14 +129,20 @@ Theorem self_cancel_no_wait : forall th i w, proc th = Some i -> cnt w = 1%N -> 
 Proof. exact ProofsE.self_cancel_no_wait. Qed.
 Print Assumptions self_cancel_no_wait.
 
-(* RUNS_AT_MOST_ONCE - PARTIAL: proved: a step logs at most one run event (and only the IRun /
-   id-less IBatch-head steps log one, consuming that entry). MISSING: pairwise distinctness of the
-   uids held in queues / batches / IRun items (freshness w.r.t. nposted), from which
-   "count (EvRun u) log <= 1" follows; exercised by the oracle class "runs-twice". *)
-Theorem runs_at_most_once_partial : forall c t c', step c t = Some c' ->
-  exists evs, log c' = evs ++ log c /\ length (filter is_run evs) <= 1.
-Proof. exact ProofsE.step_logs_at_most_one_run. Qed.
-Print Assumptions runs_at_most_once_partial.
+(* RUNS_AT_MOST_ONCE: for ALL programs and schedules (any number of threads), every callback instance u has at
+   most one run event in the log; more precisely a uid occurs at most once among {posts in flight, queues, local
+   batches, decided-to-run items, run events} *)
+Theorem runs_at_most_once : forall progs nids bds c u, reachable (init progs nids bds) c -> runs u (log c) <= 1.
+Proof. exact ProofsF.runs_at_most_once. Qed.
+Print Assumptions runs_at_most_once.
+Theorem uid_unique : forall progs nids bds c u, reachable (init progs nids bds) c ->
+  tsum u (threads c) + bsum u (boxes c) + runs u (log c) <= 1.
+Proof. exact ProofsF.uid_unique. Qed.
+Print Assumptions uid_unique.
+Theorem runs_is_count : forall u l,
+  runs u l = length (filter (fun e => match e with EvRun v _ _ => if uid_dec v u then true else false | _ => false end) l).
+Proof. exact ProofsF.runs_is_count. Qed.
+Print Assumptions runs_is_count.
 
 (* FIFO_PER_KIND - PARTIAL: proved: a post appends at the tail of the queue of its kind and leaves the
    other queue alone; a dispatch takes the whole interrupt queue (else, unless only_interrupt, the whole
@@ -158,6 +168,20 @@ Theorem first_push_interrupts_partial : forall b k e,
                                       | KIntr => match qi b with [] => true | _ => false end end.
 Proof. exact ProofsE.push_first_iff_empty. Qed.
 Print Assumptions first_push_interrupts_partial.
+
+(* POLL ("without waiting for a poll timeout"), normal callbacks: invariant "m_callbacks non-empty => m_has_callbacks"
+   for ALL programs and schedules, hence: when a thread runs Poll::poll's entry step (fetch_or(flag_polling) + timeout
+   decision) while a normal callback is queued for it, it takes the SHORT timeout. PARTIAL for interrupt callbacks:
+   m_has_interrupt_callbacks is cleared without the lock at the start of process_callbacks, so the corresponding
+   invariant carries the exception "unless the owner is between pc_store and pc_lock" (not proved; the owner cannot be
+   in poll there); exercised by the oracle class poll-timeout-wait for both kinds. *)
+Theorem poll_never_full_with_queued_normal : forall progs nids bds c t th b rest c',
+  reachable (init progs nids bds) c ->
+  nth_error (threads c) t = Some th -> todo th = ICmd PollOnce :: rest -> nth_error (boxes c) t = Some b ->
+  qn b <> [] -> step c t = Some c' ->
+  exists th', nth_error (threads c') t = Some th' /\ todo th' = IPollWait false :: rest.
+Proof. exact ProofsI.poll_never_full_with_queued_normal. Qed.
+Print Assumptions poll_never_full_with_queued_normal.
 
 (* mutual cancellation through the single-argument form deadlocks (why the two-argument form exists) *)
 Theorem single_arg_mutual_cancel_deadlocks :
